@@ -42,6 +42,7 @@ def run(chk: Check) -> None:
     run_handlers_flush_and_no_asserts(chk, ix)
     run_replies_are_ascii_safe(chk, ix)
     run_engine_handlers(chk, ix)
+    run_request_values_typed(chk, ix)
 
     # ------------- R16.1
     r1 = chk.rule("R16.1", "every exception class that connection I/O or frame decoding may raise inside the serve loop is caught inside the loop by a handler that neither re-raises nor leaves the loop (intended exits identified structurally)", floor=4)
@@ -613,3 +614,45 @@ def run_engine_handlers(chk: Check, ix) -> None:
         raise AnalysisError(f"only {n11} handlers that build an engine over self.fine_grained_manager found (expected cmd_suggest and cmd_inspect)")
     if n12 < 1:
         raise AnalysisError("no handler forwarding **kwargs found (expected cmd_suggest)")
+
+
+def run_request_values_typed(chk: Check, ix) -> None:
+    """R16.13: the values of a request are compared with the handler's annotations before the handler runs."""
+    from ..cfg import CFG
+    r13 = chk.rule("R16.13", "Server.run_command binds the request's keys to the handler's signature (names only). The values are client data too: a handler that receives `files=[1]` or `export_types='no'` raises on its own path, which serve() treats as a daemon crash. On every CFG path to `method(self, **data)` run_command passes a call of the value check (wrongly_typed_argument), and every annotation spelling used by a `cmd_*` parameter (split at ` | `, `Any` aside) is one the check understands (a string constant compared in json_value_matches): a spelling it does not know is accepted unchecked", floor=5)
+    srv = ix.cls("mypy.dmypy_server.Server")
+    rc = srv.methods.get("run_command")
+    m = ix.module("mypy.dmypy_server")
+    if rc is None:
+        raise AnalysisError("Server.run_command not found")
+    g = CFG(rc.node)
+    calls = [nd for nd in g.nodes if nd.stmt is not None and any(isinstance(c.func, ast.Name) and c.func.id == "method" and any(k.arg is None for k in c.keywords) for c in nd.calls())]
+    checks = [nd for nd in g.nodes if nd.stmt is not None and any(call_name(c) == "wrongly_typed_argument" for c in nd.calls())]
+    if not calls:
+        raise AnalysisError("run_command: the call `method(self, **data)` not found")
+    key = "run_command: request values are checked against the handler's annotations before it is called"
+    if checks and all(g.must_pass(g.entry, [c], checks, labels_excluded=("exc",)) for c in calls):
+        r13.ok(key, rc.loc(calls[0].stmt))
+    else:
+        r13.violation(key, rc.loc(calls[0].stmt), "the handler is called with whatever JSON values the client sent: `{\"command\": \"check\", \"files\": [1], ...}` raises inside cmd_check (create_source_list), the reply is 'Daemon crashed!', the status file is removed and the daemon exits")
+    jm = m.functions.get("json_value_matches")
+    known = {c.value for c in ast.walk(jm.node) if isinstance(c, ast.Constant) and isinstance(c.value, str)} if jm is not None else set()
+    atoms: dict[str, str] = {}
+    for name, f in sorted(srv.methods.items()):
+        if not name.startswith("cmd_"):
+            continue
+        a_ = f.node.args
+        for p_ in a_.posonlyargs + a_.args + a_.kwonlyargs:
+            if p_.arg == "self" or p_.annotation is None:
+                continue
+            for atom in norm(p_.annotation).split(" | "):
+                if atom != "Any":
+                    atoms.setdefault(atom, f"{name}({p_.arg})")
+    if len(atoms) < 4:
+        raise AnalysisError(f"cmd_* handlers: only {sorted(atoms)} annotation spellings found")
+    for atom, where in sorted(atoms.items()):
+        key = f"json_value_matches understands the annotation `{atom}`"
+        if atom in known:
+            r13.ok(key, jm.loc() if jm is not None else rc.loc())
+        else:
+            r13.violation(key, srv.methods[where.split("(")[0]].loc(), f"`{atom}` (first used by {where}) is not among the spellings the value check compares ({sorted(known)}): values for such parameters reach the handler unchecked")
